@@ -61,6 +61,9 @@ VARIANTS = {
     # the two "mixed" configurations of (debug assertions, overflow checks)
     "std-release-ovf": dict(toolchain=None, profile="release", features="interpose", rustflags=GUARD + " -Coverflow-checks=on"),
     "std-debug-wrap": dict(toolchain=None, profile="dev", features="interpose", rustflags=GUARD + " -Coverflow-checks=off"),
+    # the library built WITHOUT its default `rawfd` feature (only the monitors that need no file /
+    # socket adapters are compiled in: c14's scripted streams)
+    "std-debug-norawfd": dict(toolchain=None, profile="dev", features="interpose", no_default_features=True, rustflags=GUARD),
     "xen-debug": dict(toolchain=None, profile="dev", features="xen,interpose", rustflags=GUARD),
     "xen-release": dict(toolchain=None, profile="release", features="xen,interpose", rustflags=GUARD),
     "asan": dict(toolchain="nightly", profile="dev", features="", target=TARGET,
@@ -68,6 +71,8 @@ VARIANTS = {
     "tsan": dict(toolchain="nightly", profile="release", features="", target=TARGET, build_std=True,
                  rustflags=GUARD + " -Zsanitizer=thread"),
     "miri": dict(toolchain="nightly", profile="dev", features="", miri=True, rustflags=GUARD),
+    # a BIG-ENDIAN host: Miri interpreting the s390x build (the sysroot is built offline from rust-src)
+    "miri-be": dict(toolchain="nightly", profile="dev", features="", miri=True, target="s390x-unknown-linux-gnu", rustflags=GUARD),
 }
 
 
@@ -103,6 +108,8 @@ def cargo_cmd(v, sub):
             "--target-dir", variant_dir(v)]
     if spec["profile"] == "release":
         cmd.append("--release")
+    if spec.get("no_default_features"):
+        cmd.append("--no-default-features")
     if spec.get("features"):
         cmd += ["--features", spec["features"]]
     if spec.get("target"):
